@@ -136,7 +136,15 @@ def gen_field(rng, ty, depth):
         return ["b", b.hex()]
     if k == "string":
         ln = rng.choice(LONG_LENS) if rng.random() < 0.02 else rng.choice(STR_LENS)
-        return ["s", "".join(rng.choice("abcXYZ019 _") for _ in range(ln)).encode().hex()]
+        # text with multi-byte characters: the TL length is the number of UTF-8 BYTES, not of characters
+        alphabet = "abcXYZ019 _" if rng.random() < 0.6 else "ab\u00e9\u0416\u20ac z\U0001F600"
+        t = ""
+        while len(t.encode()) < ln:
+            t += rng.choice(alphabet)
+        while len(t.encode()) > ln:
+            t = t[:-1]
+        t += "x" * (ln - len(t.encode()))
+        return ["s", t.encode().hex()]
     if k == "bare":
         if depth > 4:
             raise RecursionError
@@ -406,8 +414,17 @@ def shadowed(v, lib):
 
 def blockid_case(rng):
     from pytoniq_core.tl.block import BlockId, BlockIdExt
-    b = BlockIdExt(rng.choice([0, -1, 5]), rng.choice([None, -(1 << 63), rng.getrandbits(63)]), rng.getrandbits(31),
-                   rng.randbytes(32), rng.randbytes(32))
+    import struct
+    wc, shard, seqno = rng.choice([0, -1, 5]), rng.choice([None, 0, 1, -1, -(1 << 63), (1 << 63) - 1, rng.getrandbits(63)]), rng.getrandbits(31)
+    rh, fh = rng.randbytes(32), rng.randbytes(32)
+    b = BlockIdExt(wc, shard, seqno, rh, fh)
+    # independent expectation: the 80-byte layout written out with struct (an omitted shard is the full shard -2^63)
+    want = struct.pack(">iqi", wc, -(1 << 63) if shard is None else shard, seqno) + rh + fh
+    if b.to_bytes() != want:
+        return f"bytes: to_bytes of (wc={wc}, shard={shard}, seqno={seqno}) is not workchain/shard/seqno/root/file"
+    back = BlockIdExt.from_bytes(want)
+    if (back.workchain, back.shard, back.seqno, back.root_hash, back.file_hash) != (wc, -(1 << 63) if shard is None else shard, seqno, rh, fh):
+        return "bytes: from_bytes does not return the encoded components"
     if BlockIdExt.from_bytes(b.to_bytes()) != b or len(b.to_bytes()) != 80:
         return "bytes: to_bytes/from_bytes"
     if BlockIdExt.from_dict(b.to_dict()) != b:
